@@ -174,8 +174,32 @@ def gen_case(rng):
     return case
 
 
+def gen_smooth_case(rng):
+    """categorical-date columns with a smoother, an EMPTY wave that is not the last one, and hide / prune / order on the
+    columns: the smoothed series is computed over all periods first (an empty wave poisons its windows), then re-indexed"""
+    case = sc.gen_case(rng, kinds=[rng.choice(["cat", "cat", "mr"]), "cat_date"], max_n=6, n_resp=rng.randint(8, 40))
+    vars_, survey = sc.load(case)
+    C = vars_[-1]
+    vpos = C.valid_cat_pos
+    if len(vpos) >= 3:
+        hole = rng.choice(vpos[:-1])
+        others = [p for p in vpos if p != hole]
+        survey = [(w, [a[0], [rng.choice(others)] if a[1] == [hole] else a[1]]) for w, a in survey]
+        case["survey"] = gen.survey_to_json(survey)
+    cd = gen_dim(rng, C, vars_[-2], [])
+    cd["prune"] = rng.random() < 0.7
+    cd["smoother"] = {"function": "one_sided_moving_avg", "window": rng.choice([2, 2, 3])}
+    rd = gen_dim(rng, vars_[-2], C, cd.get("insertions", []))
+    for d in (rd, cd):
+        if isinstance(d.get("order"), dict) and d["order"].get("type") == "opposing_insertion":
+            del d["order"]
+    case["transforms"] = {"rows_dimension": rd, "columns_dimension": cd}
+    case["population"] = 0
+    return case
+
+
 def generate(ctx):
-    return [gen_case(ctx.rng) for _ in range(ctx.n(160, 2500))]
+    return [gen_case(ctx.rng) for _ in range(ctx.n(160, 2500))] + [gen_smooth_case(ctx.rng) for _ in range(ctx.n(20, 300))]
 
 
 def lean_ops(case):
